@@ -632,7 +632,9 @@ impl C15 {
         {
             let (db, acked, failures, windows, probe_rt) = (db.clone(), acked.clone(), failures.clone(), windows.clone(), probe_rt.clone());
             sierradb::verif::set_pause_handler(Some(Arc::new(move |point: &str| {
-                if !failures.lock().unwrap().is_empty() {
+                // only the writer-side points of the rollover (the probes below run scans of their
+                // own, which pass the reader-side point on this handler's runtime)
+                if !point.starts_with("rollover:") || !failures.lock().unwrap().is_empty() {
                     return;
                 }
                 let n = windows.fetch_add(1, Ordering::Relaxed);
@@ -688,10 +690,136 @@ impl C15 {
             }
         });
         sierradb::verif::set_pause_handler(None);
+        // Part C: the reader-side window. A scan is parked (hook H2, point
+        // `iter:after-live-segment-id`) after it has read which segment is live and before it looks
+        // into the live indexes; meanwhile appends force a complete rollover; then the scan goes on.
+        // Everything acknowledged before the scan started must still be returned, unharmed.
+        let mut reader_windows = 0u64;
+        if failures.lock().unwrap().is_empty() && !acked.lock().unwrap().streams.is_empty() {
+            let parked = Arc::new((Mutex::new((false, false)), std::sync::Condvar::new())); // (parked, released)
+            let armed = Arc::new(AtomicBool::new(true));
+            {
+                let (parked, armed) = (parked.clone(), armed.clone());
+                sierradb::verif::set_pause_handler(Some(Arc::new(move |point: &str| {
+                    if point != "iter:after-live-segment-id" || !armed.swap(false, Ordering::SeqCst) {
+                        return;
+                    }
+                    let (m, cv) = &*parked;
+                    let mut g = m.lock().unwrap();
+                    g.0 = true;
+                    cv.notify_all();
+                    // bounded: a harness mistake must not hang the reader forever
+                    let deadline = std::time::Instant::now() + Duration::from_secs(20);
+                    while !g.1 && std::time::Instant::now() < deadline {
+                        g = cv.wait_timeout(g, Duration::from_millis(50)).unwrap().0;
+                    }
+                })));
+            }
+            let snapshot = {
+                let a = acked.lock().unwrap();
+                Acked { streams: a.streams.clone(), partitions: a.partitions.clone() }
+            };
+            // two kinds of parked scan: the full probe from position 0, or a tail scan that starts
+            // at the stream's current end (where the events appended meanwhile will live)
+            let tail_target: Option<(u16, String, u64)> = if salt % 2 == 0 { snapshot.streams.iter().map(|((p, sid), ids)| (*p, sid.clone(), ids.len() as u64)).min() } else { None };
+            let tail_result: Arc<Mutex<Vec<(u64, Uuid)>>> = Arc::new(Mutex::new(Vec::new()));
+            let reader = {
+                let (db, salt, tail_target, tail_result) = (db.clone(), salt, tail_target.clone(), tail_result.clone());
+                probe_rt.spawn(async move {
+                    match tail_target {
+                        None => c15_probe(&db, &snapshot, salt ^ 0xC15C, "scan parked across a complete rollover").await,
+                        Some((pid, sid, from)) => {
+                            let mut it = match db.read_stream(pid, StreamId::new(sid.clone()).unwrap(), from, IterDirection::Forward).await {
+                                Ok(it) => it,
+                                Err(e) => return Some(("tail-scan-error".to_string(), format!("read_stream({sid:?}, from {from}) parked across a rollover failed: {e}"))),
+                            };
+                            loop {
+                                match it.next_batch(16).await {
+                                    Ok(Some(b)) => {
+                                        for g in b {
+                                            for e in g {
+                                                if &*e.stream_id == sid.as_str() {
+                                                    tail_result.lock().unwrap().push((e.stream_version, e.event_id));
+                                                } else {
+                                                    return Some(("tail-scan-foreign-event".to_string(), format!("tail scan of {sid:?} from {from} parked across a rollover returned an event of stream {:?}", &*e.stream_id)));
+                                                }
+                                            }
+                                        }
+                                    }
+                                    Ok(None) => return None,
+                                    Err(e) => return Some(("tail-scan-error".to_string(), format!("tail scan of {sid:?} from {from} parked across a rollover failed: {e}"))),
+                                }
+                            }
+                        }
+                    }
+                })
+            };
+            // wait until the scan is parked (it may also never reach the point: version queries only)
+            let is_parked = {
+                let (m, cv) = &*parked;
+                let g = m.lock().unwrap();
+                let (g, _) = cv.wait_timeout_while(g, Duration::from_secs(3), |g| !g.0).unwrap();
+                g.0
+            };
+            if is_parked {
+                reader_windows = 1;
+                // a complete rollover (or two) while the scan is parked
+                wide_block_on(async {
+                    for i in 0..4 {
+                        let tx = mk_tx(&cfg2, 0, vec![(stream_name(0), ExpectedVersion::Any, 50_000, 2u8, GOOD_TS)], salt ^ (0xC0 + i));
+                        rendered.push(json!({"append_while_a_scan_is_parked": {"stream": stream_name(0), "payload": 50_000}}));
+                        match db.append_events(to_transaction(&tx)).await {
+                            Ok(_) => {
+                                let mut a = acked.lock().unwrap();
+                                for e in &tx.events {
+                                    a.streams.entry((tx.partition_id, e.stream_id.to_string())).or_default().push(e.event_id);
+                                    a.partitions.entry(tx.partition_id).or_default().push(e.event_id);
+                                }
+                            }
+                            Err(e) => {
+                                failures.lock().unwrap().push(("reader-window/append-failed".into(), format!("valid append failed: {e}")));
+                                break;
+                            }
+                        }
+                    }
+                });
+            }
+            {
+                let (m, cv) = &*parked;
+                m.lock().unwrap().1 = true;
+                cv.notify_all();
+            }
+            armed.store(false, Ordering::SeqCst);
+            match wide_block_on(async { tokio::time::timeout(Duration::from_secs(60), reader).await }) {
+                Ok(Ok(Some((sig, msg)))) => failures.lock().unwrap().push((format!("reader-window/{sig}"), msg)),
+                Ok(Ok(None)) => {}
+                Ok(Err(e)) => failures.lock().unwrap().push(("reader-window/reader-panicked".into(), format!("the scanning task died: {e}"))),
+                Err(_) => failures.lock().unwrap().push(("reader-window/reader-stuck".into(), "the scan did not finish within 60 s after it was released".into())),
+            }
+            sierradb::verif::set_pause_handler(None);
+            // a tail scan may return nothing or any prefix of what was appended meanwhile - but
+            // only those events, in order, at their versions
+            if let Some((pid, sid, from)) = &tail_target {
+                let all = acked.lock().unwrap().streams.get(&(*pid, sid.clone())).cloned().unwrap_or_default();
+                let got = tail_result.lock().unwrap().clone();
+                for (i, (version, id)) in got.iter().enumerate() {
+                    let want_version = from + i as u64;
+                    if *version != want_version || all.get(*version as usize) != Some(id) {
+                        failures.lock().unwrap().push(("reader-window/tail-scan-wrong-event".into(), format!("tail scan of {sid:?} from {from}, parked across a rollover, returned event {id} as version {version} at position {i}; the stream holds {:?} there", all.get(want_version as usize))));
+                        break;
+                    }
+                }
+                out.class("tail-scan-parked-across-rollover");
+            }
+        }
         wide_block_on(db.shutdown());
         drop(db);
         let w = windows.load(Ordering::Relaxed);
         out.count("reads_inside_rollover_windows", w);
+        out.count("scans_parked_across_a_rollover", reader_windows);
+        if reader_windows > 0 {
+            out.class("scan-parked-across-rollover");
+        }
         out.nontrivial = w > 0;
         if let Some((sig, msg)) = failures.lock().unwrap().first().cloned() {
             out.fail(format!("C15/{sig}"), msg);
